@@ -110,7 +110,7 @@ long long c_combi(int n, int k)
     int j=1;
 
     /* Skip if number  is too high */
-    if(k>30 || n-k>30){
+    if(k>30 || (long long)n-k>30 || n<0){
         return -1;
     }
 
